@@ -4,17 +4,19 @@
 # existing tests, and that its demonstration fails with the change and passes without it.
 set -u
 W="$1"; cd "$W" || exit 3
-export CARGO_TARGET_DIR="$W/target" CARGO_NET_OFFLINE=true
+export CARGO_NET_OFFLINE=true   # (no CARGO_TARGET_DIR: demonstrations may rely on ./target)
 git checkout -q -- kiki kiki_e2e_test 2>/dev/null
+git clean -fdq -- kiki/src 2>/dev/null   # (files a patch creates)
 git apply --check MUTATION/patch.diff || { echo "CONFIRM: patch does not apply to a clean tree"; exit 1; }
 echo "--- demo on the unmodified tree (must pass)"
 bash MUTATION/demo.sh >"$W/MUTATION/confirm_without.log" 2>&1; rc0=$?
 echo "demo exit without change: $rc0"
 git checkout -q -- kiki kiki_e2e_test 2>/dev/null
+git clean -fdq -- kiki/src 2>/dev/null
 git apply MUTATION/patch.diff
 echo "--- existing tests with the change (must pass); untracked demo tests are moved aside"
 mkdir -p "$W/MUTATION/aside"
-for f in $(git ls-files --others --exclude-standard -- kiki kiki_e2e_test); do mkdir -p "$W/MUTATION/aside/$(dirname $f)"; mv "$f" "$W/MUTATION/aside/$f"; done
+for f in $(git ls-files --others --exclude-standard -- kiki kiki_e2e_test | grep -v "^kiki/src/"); do mkdir -p "$W/MUTATION/aside/$(dirname $f)"; mv "$f" "$W/MUTATION/aside/$f"; done
 cargo test --workspace --no-fail-fast --offline >"$W/MUTATION/confirm_tests.log" 2>&1; rct=$?
 grep -E "^test result" "$W/MUTATION/confirm_tests.log" | tr '\n' ' '; echo; echo "tests exit with change: $rct"
 git checkout -q -- kiki_e2e_test 2>/dev/null
